@@ -570,4 +570,6 @@ theorem recommendUpdate_range (cur : Nat) (delta : Int) (hd : delta ≠ 0) :
     · rw [if_pos h2, toInt8_int8Byte _ (by omega) (by omega)]; omega
     · rw [if_neg h2, toInt8_int8Byte _ (by omega) (by omega)]; omega
 
+theorem brdSz_pos : 0 < brdSz := by decide
+
 end PttVerif.C05
